@@ -15,6 +15,10 @@ import (
 
 func init() {
 	commands["c10"] = func(e *env) { c10(e, false) }
+	// c10t: the direct handlers with the reply cut one byte before its end (the header arrives,
+	// the body - error text or value - does not): Faults.v has no such fault, so these runs are
+	// judged by the oracles alone (check10c), like c10c
+	commands["c10t"] = func(e *env) { tailOnly = true; c10(e, false) }
 	// c10c: the same enumeration with the chunked handler as L1 and values of several chunks;
 	// judged by the oracles alone (check10c)
 	commands["c10c"] = func(e *env) { c10(e, true) }
@@ -43,7 +47,7 @@ func faultGallina(c fCase) string {
 		return gal.App("FStatus", gal.N(uint64(c.Status)))
 	case "close-before":
 		return gal.App("FBreak", "false")
-	case "close-after-apply", "close-mid":
+	case "close-after-apply", "close-mid", "close-tail":
 		return gal.App("FBreak", "true")
 	default:
 		return "FBreakAfterReply"
@@ -60,6 +64,8 @@ func fakeFault(c fCase) fakemc.Fault {
 		return fakemc.Fault{Kind: fakemc.FCloseAfterApply}
 	case "close-mid":
 		return fakemc.Fault{Kind: fakemc.FCloseMid}
+	case "close-tail": // all of the reply but its last byte (a hit: header, extras and most of the value)
+		return fakemc.Fault{Kind: fakemc.FCloseMid, Tail: 1}
 	default:
 		return fakemc.Fault{Kind: fakemc.FCloseAfterReply}
 	}
@@ -72,16 +78,16 @@ var fKeys = []string{"a", "bb"}
 // runFault executes setup fault-free, then the command with the fault armed. Returns the
 // per-tier request counts of the command (for enumeration) and the observations.
 type fObs struct {
-	reply   []byte
-	closed  bool
-	hang    bool
+	reply  []byte
+	closed bool
+	hang   bool
 	// hangAfter: the faulted command was answered, but the next command on the same client
 	// connection got neither a reply nor a close
 	hangAfter bool
-	n1, n2  int
-	l1, l2  string
-	reads   [][2][]byte
-	crashed string
+	n1, n2    int
+	l1, l2    string
+	reads     [][2][]byte
+	crashed   string
 }
 
 func runFault(c fCase, arm bool) fObs {
@@ -198,6 +204,8 @@ func fCaseGallina(c fCase, o fObs) string {
 		gal.Bytes(o.reply), gal.Bool(o.closed), o.l1, o.l2, gal.List(reads))
 }
 
+var tailOnly bool
+
 func c10(e *env, chunkedL1 bool) {
 	w := rig.NewWriter(e.out, "C10", e.tier, e.seed)
 	w.Shards = 16
@@ -288,6 +296,12 @@ func c10(e *env, chunkedL1 bool) {
 						for tier, n := range map[int]int{1: o0.n1, 2: o0.n2} {
 							for idx := 0; idx < n; idx++ {
 								fks := []string{"close-before", "close-after-apply", "close-after-reply", "close-mid", "status"}
+								if chunkedL1 {
+									fks = append(fks, "close-tail")
+								}
+								if tailOnly {
+									fks = []string{"close-tail"}
+								}
 								for _, fk := range fks {
 									sts := []uint16{0}
 									if fk == "status" {
@@ -341,8 +355,12 @@ func c10(e *env, chunkedL1 bool) {
 		w.Add(rig.Case{Desc: c, Coq: fCaseGallina(c, o), Nontrivial: c.Idx > 0 || len(c.Setup) > 0, Tags: faultTags(c)})
 	}
 	w.Res.Exhaustive = true
-	w.Res.Rule = "for every (configuration, setup, command kind): the command is first run fault-free to count its backend requests per tier, then re-run once per (tier, request index, fault kind in {close before/after-apply/after-reply/mid-reply, error status}) with that fault armed in the fake backend; afterwards fault-free reads from a fresh connection; non-trivial = the fault hits after partial progress (index > 0) or on a non-empty store; enumeration is exhaustive over positions and kinds (statuses sampled in quick, all 13 in thorough)"
+	w.Res.Rule = "for every (configuration, setup, command kind): the command is first run fault-free to count its backend requests per tier, then re-run once per (tier, request index, fault kind in {close before/after-apply/after-reply/mid-reply/one byte before the end of the reply, error status}) with that fault armed in the fake backend; afterwards fault-free reads from a fresh connection; non-trivial = the fault hits after partial progress (index > 0) or on a non-empty store; enumeration is exhaustive over positions and kinds (statuses sampled in quick, all 13 in thorough)"
 	fn := "check10"
+	if tailOnly {
+		fn = "check10c"
+		w.Res.Rule += "; this run: only the fault 'reply cut one byte before its end', judged by the oracles without a step model"
+	}
 	if chunkedL1 {
 		fn = "check10c"
 		w.Res.Rule += "; this run: the chunked handler as L1 with values of two and three chunks, judged by the oracles (answered or closed, well-formed frames, no stale value after an ack) without a step model"
